@@ -39,6 +39,14 @@ def plan(tier, seed):
              "P3", "P2", "H3", "H2c", "F4", "Sc2p", "Sc2n", "Sc2i", "Sc2h", "Sc3n", "TL22", "Td2", "R0", "R1"]
     seeds = [L[n] for n in names]
     ops = [L[n] for n in ["Hc22", "Sy22", "Un22c", "Sc2n", "Sc2i", "Sc2p", "I2", "D22c", "St32", "Un22"]]
+    # operands that already carry a (true) declaration: composites of DIFFERENT but related declarations
+    # (PSD with SelfAdjoint, Unitary with Stiefel) must keep only what holds for all parts
+    decl = [catalog.node("Annot", {"ann": a}, [L[n]]) for n, a in
+            (("Sy22", "PSD"), ("Sy22i", "SelfAdjoint"), ("Hc22", "SelfAdjoint"), ("Un22", "Unitary"), ("Un22", "Stiefel"),
+             ("St32", "Stiefel"))]
+    mixed = dict(seeds=decl + [L["I2"], L["P2"]], operands=decl + [L["I2"]], small=decl[:2],
+                 acts={"Kronecker", "BlockDiag", "Sum", "Product", "Sum3", "anns"}, lvl=2, dim=4, forms=None,
+                 stride=1, ebound=40)
     small = [L["Sy22"], L["Sc2n"]]
     forms = [f for f in catalog.slice_forms() if f["t"] == "slice"][:5] + [{"t": "array", "v": [1, 0]}]
     sc = [s for s in catalog.scalars() if s["ck"] in ("pyint", "pyfloat", "pycomplex")]
@@ -49,7 +57,7 @@ def plan(tier, seed):
                 forms=catalog.offset_forms(), stride=1, ebound=40)
     if tier == "quick":
         return [
-            offs,
+            offs, mixed,
             dict(seeds=seeds, operands=ops, small=small, acts=ACTS, lvl=1, dim=6, forms=forms, stride=1, ebound=20),
             dict(seeds=seeds_q[:10], operands=ops[:5], small=small, acts=ACTS, lvl=2, dim=4, forms=forms, stride=5,
                  ebound=20),
@@ -59,7 +67,7 @@ def plan(tier, seed):
                  ebound=20),
         ]
     return [
-        offs,
+        offs, mixed,
         dict(seeds=seeds, operands=ops, small=small, acts=ACTS, lvl=2, dim=4, forms=forms, stride=1, ebound=20),
         dict(seeds=seeds, operands=ops, small=small, acts=ACTS | {"Sum3", "Product3", "Kronecker3"}, lvl=5, dim=4,
              forms=forms, stride=2, simulate=60, ebound=20),
@@ -249,6 +257,21 @@ def routine_outputs(tier):
                     except Exception:  # noqa: BLE001   (whether the call succeeds is C10's business)
                         continue
                     outs.append((f"eig({nm}{n},k={k},{an}).V", Wv))
+        # matrix functions of a declared self-adjoint INDEFINITE operator: sqrt / log of a negative eigenvalue is not
+        # real, so the result is complex symmetric, not Hermitian
+        Mi = Qo @ np.diag(np.where(np.arange(n) % 2 == 0, -1.0, 1.0) * np.arange(1., n + 1)) @ Qo.T
+        Ai = cola.SelfAdjoint(cola.ops.Dense((Mi + Mi.T) / 2))
+        for fn in ("sqrt", "log", "isqrt", "exp"):
+            for alg, an in ((Auto(), "Auto"), (Eig(), "Eig"), (Arnoldi(max_iters=n), "Arnoldi")):
+                try:
+                    outs.append((f"{fn}(sa-indef{n},{an})", getattr(cola.linalg, fn)(Ai, alg)))
+                except Exception:  # noqa: BLE001
+                    continue
+        try:
+            outs.append((f"pow(sa-indef{n},0.5)", cola.linalg.pow(Ai, 0.5)))
+            outs.append((f"pow(sa-indef{n},3)", cola.linalg.pow(Ai, 3)))
+        except Exception:  # noqa: BLE001
+            pass
         W = rng.randn(n + 2, n)
         for k in (1, n):
             U, Sg, Vv = svd(cola.ops.Dense(W), k, "LM", DenseSVD())
